@@ -45,10 +45,23 @@ const map<string, double> PREFIX_FACTORS = {{"y", 1.0e-24}, {"z", 1.0e-21}, {"a"
     {"k", 1.0e3}, {"M",1.0e6}, {"G", 1.0e9}, {"T", 1.0e12}, {"P", 1.0e15}, {"E",1.0e18}, {"Z", 1.0e21}, {"Y", 1.0e24}};
 
 
+// The engine behind createId(): seeded from the system's entropy source. (It used to be seeded with
+// time(0): processes started within the same second then generated identical id sequences.)
+static boost::mt19937 makeIdEngine() {
+    std::random_device rd;
+    std::seed_seq seq{rd(), rd(), rd(), rd(), rd(), rd(), rd(), rd()};
+    boost::mt19937 engine;
+    engine.seed(seq);
+    return engine;
+}
+
+
 string createId() {
-    typedef boost::mt19937::result_type seed_type;
-    static boost::mt19937 ran(static_cast<seed_type>(std::time(0)));
+    // one generator per process, shared by all threads
+    static std::mutex mtx;
+    static boost::mt19937 ran = makeIdEngine();
     static boost::uuids::basic_random_generator<boost::mt19937> gen(&ran);
+    std::lock_guard<std::mutex> lock(mtx);
     boost::uuids::uuid u = gen();
     return boost::uuids::to_string(u);
 }
